@@ -6,6 +6,7 @@ A result stream is the list of its pull results: `some row` = a delivered record
 (error or recovered panic).  Consumption by the terminal stops at the first `none` (`collect`).
 -/
 import ShpanVerif.Model.Query
+import ShpanVerif.Model.Delta
 
 namespace ShpanVerif.Model.Query
 
@@ -391,15 +392,135 @@ end joins
 inductive JoinType | inner | left | full
   deriving DecidableEq, Repr, Inhabited
 
-/-! ## the aligner of the reduction datasource (datasource/aligner_filter.go, fixed period, no fill mode)
+/-! ## the aligner filters (datasource/aligner_filter.go, report/aligner_report_filter.go; FIXED alignment periods)
 over `stream.ClusterSortedStream` (one cluster per period; the emit of a cluster has pulled the whole cluster
-and the first record of the next one). -/
-
-section aligner
-variable {D : Type} (O : Ops D)
+and the first record of the next one).  Used stand-alone (`DXFilter.align`, `RXFilter.align`) and by the reduction
+datasource.  The cluster machine is generic in the record type `α` (`TsRecord[any]` / `TsRecord[[]any]`). -/
 
 /-- `FixedAlignmentPeriod.GetStartTime` alignment_period.go:105-115 (UTC): round down to a multiple of the period -/
 def periodStart (p : Int) (t : Int) : Int := t - t % p
+
+/-- the next pull of the source fails -/
+def headFails {α : Type} : List (Option α) → Bool
+  | none :: _ => true
+  | _ => false
+
+section cluster
+variable {α : Type} (ts : α → Int)
+
+/-- the skipping loop of cluster_sorted_stream.go:154-173, entered with `nextItem = cur` in the current cluster:
+`none` = a failing pull or "cluster stream is not sorted" (:167-169), else
+(lastItemOnPreviousCluster, first record of the next cluster if any, remaining pulls) -/
+def skipCluster (p start : Int) (cur : α) : List (Option α) → Option (α × Option α × List (Option α))
+  | [] => some (cur, none, [])
+  | none :: _ => none
+  | some y :: t =>
+    if periodStart p (ts y) = start then skipCluster p start y t
+    else if periodStart p (ts y) < start then none
+    else some (cur, some y, t)
+
+/-- what is left after the cluster factory took the FIRST record of the cluster (`FindFirst`, which pulls one more
+record, cluster_sorted_stream.go:119-136) and the skipping loop ran -/
+def restOfCluster (p start : Int) (first : α) : List (Option α) → Option (α × Option α × List (Option α))
+  | [] => some (first, none, [])
+  | none :: _ => none
+  | some r :: t => if periodStart p (ts r) = start then skipCluster ts p start r t else some (first, some r, t)
+
+/-- `ClusterSortedStreamComparable(factory, classifier = period start, src)` where the factory is
+`mk start lastItemOnPreviousCluster firstItemOfCluster` (aligner_filter.go:44-94 / aligner_report_filter.go:40-90) -/
+def alignLoop (mk : Int → Option α → α → Option α) (p : Int) : Nat → Option α → α → List (Option α) → List (Option α)
+  | 0, _, _, _ => []
+  | fuel + 1, prev, first, rest =>
+    let start := periodStart p (ts first)
+    -- `FindFirst` yields `first` and pulls one more record
+    if headFails rest then [none]
+    else
+      match mk start prev first with
+      | none => [none]
+      | some out =>
+        match restOfCluster ts p start first rest with
+        | none => [none]
+        | some (_, none, _) => [some out]
+        | some (last, some nxt, rest') => some out :: alignLoop mk p fuel (some last) nxt rest'
+
+def alignStreamG (mk : Int → Option α → α → Option α) (p : Int) (s : List (Option α)) : List (Option α) :=
+  match s with
+  | [] => []
+  | none :: _ => [none]
+  | some first :: rest => alignLoop ts mk p (s.length + 1) none first rest
+
+end cluster
+
+/-- `timeseries.FillMode` (fill_mode.go); `other` = any other string -/
+inductive FillMode | linear | forwardFill | other
+  deriving DecidableEq, Repr, Inhabited
+
+/-! ### the gap filler `timeseries.NewTsGapFillerStream` (ts_gap_filler_stream.go) over a stream of pull results;
+generic in the record type: `ts`/`val` read a record, `mk` builds `TsRecord{Value, Timestamp}`.  The output ends
+at the first failure (`[none]`): nothing after a failed pull is observable. -/
+section gapfill
+variable {α β : Type} (ts : α → Int) (val : α → β) (mk : Int → β → α)
+
+/-- the advance loop ts_gap_filler_stream.go:51-63: consume points whose timestamp is not after `e`;
+`none` = a failing pull; else (prevPoint, nextPoint, remaining pulls) -/
+def fillAdvance (e : Int) : Option α → Option α → List (Option α) → Option (Option α × Option α × List (Option α))
+  | prev, none, src => some (prev, none, src)
+  | prev, some n, [] => if ts n ≤ e then some (some n, none, []) else some (prev, some n, [])
+  | prev, some n, none :: t => if ts n ≤ e then none else some (prev, some n, none :: t)
+  | prev, some n, some x :: t =>
+    if ts n ≤ e then fillAdvance e (some n) (some x) t else some (prev, some n, some x :: t)
+
+/-- the emits of ts_gap_filler_stream.go:33-110 after initialisation; `e` = expectedTs,
+`interp target t1 v1 t2 v2` = interpolateFn (`none` = error) -/
+def fillLoop (p : Int) (mode : FillMode) (interp : Int → Int → β → Int → β → Option β) :
+    Nat → Option α → Option α → Int → List (Option α) → List (Option α)
+  | 0, _, _, _, _ => []
+  | fuel + 1, prev, next, e, src =>
+    match fillAdvance ts e prev next src with
+    | none => [none]
+    | some (prev', next', src') =>
+      let e' := periodStart p e + p                                   -- ap.GetEndTime(expectedTs)
+      match prev' with
+      | none => []                                                     -- :77-79 / :107-108
+      | some pp =>
+        if ts pp = e then                                              -- :66-74 exact match
+          some (mk e (val pp)) ::
+            (match next' with
+             | none => []                                              -- exhausted := true
+             | some _ => fillLoop p mode interp fuel prev' next' e' src')
+        else
+          match next' with
+          | none => []                                                 -- :77-79
+          | some n =>
+            match mode with                                            -- :85-101
+            | .linear =>
+              match interp e (ts pp) (val pp) (ts n) (val n) with
+              | none => [none]
+              | some v => some (mk e v) :: fillLoop p mode interp fuel prev' next' e' src'
+            | .forwardFill => some (mk e (val pp)) :: fillLoop p mode interp fuel prev' next' e' src'
+            | .other => [none]                                         -- "unsupported fill mode"
+
+/-- the largest timestamp delivered by the source (for the step budget only) -/
+def maxTs (s : List (Option α)) (m : Int) : Int :=
+  s.foldl (fun acc e => match e with
+    | some a => if ts a > acc then ts a else acc
+    | none => acc) m
+
+/-- `NewTsGapFillerStream(src, fixed period p, mode, interp, copy)`; the first emit pulls the first point (:35-43).
+The step budget covers every period between the first and the last point. -/
+def gapFillStream (p : Int) (mode : FillMode) (interp : Int → Int → β → Int → β → Option β) (s : List (Option α)) :
+    List (Option α) :=
+  match s with
+  | [] => []
+  | none :: _ => [none]
+  | some first :: rest =>
+    fillLoop ts val mk p mode interp (((maxTs ts rest (ts first) - ts first) / p).toNat + s.length + 3)
+      none (some first) (ts first) rest
+
+end gapfill
+
+section aligner
+variable {D : Type} (O : Ops D)
 
 /-- datatype.go:79-94 `ToFloat64` -/
 def toFloat64 (dt : DataType) (v : Val D) : Option D :=
@@ -426,7 +547,24 @@ def timeWeightedAverage (dt : DataType) (target t1 : Int) (v1 : Val D) (t2 : Int
     | some f1, some f2 => fromFloat64 O dt (O.add f1 (O.mul (O.sub f2 f1) weight))
     | _, _ => none
 
-/-- the value emitted for the cluster starting at `start` whose first record is `first` -/
+/-- the loop of aligner_report_filter.go:136-152 over the cells (`fieldsMeta[i]`, `v2Arr[i]` panic when too short) -/
+def twaCells (weight : D) : List DataType → List (Val D) → List (Val D) → Option (List (Val D))
+  | _, [], _ => some []
+  | dt :: dts, a :: as, b :: bs =>
+    match toFloat64 O dt a, toFloat64 O dt b with
+    | some f1, some f2 =>
+      (fromFloat64 O dt (O.add f1 (O.mul (O.sub f2 f1) weight))).bind fun x => (twaCells weight dts as bs).map (x :: ·)
+    | _, _ => none
+  | _, _ :: _, _ => none
+
+/-- aligner_report_filter.go:118-155 `timeWeightedAverageArr` -/
+def timeWeightedAverageArr (dts : List DataType) (target t1 : Int) (v1 : List (Val D)) (t2 : Int) (v2 : List (Val D)) :
+    Option (List (Val D)) :=
+  if t1 = t2 then (if t1 = target then some v1 else none)
+  else if target < t1 ∨ target > t2 then none
+  else twaCells O (O.div (O.secs (target - t1)) (O.secs (t2 - t1))) dts v1 v2
+
+/-- the value emitted for the cluster starting at `start` whose first record is `first` (aligner_filter.go:52-90) -/
 def alignValue (dt : DataType) (start : Int) (prev : Option (DRec D)) (first : DRec D) : Option (DRec D) :=
   match prev with
   | none => some { ts := start, val := first.val }
@@ -434,42 +572,160 @@ def alignValue (dt : DataType) (start : Int) (prev : Option (DRec D)) (first : D
     if first.ts = start then some { ts := start, val := first.val }
     else (timeWeightedAverage O dt start p.ts p.val first.ts first.val).map fun v => { ts := start, val := v }
 
-/-- consume the rest of the current cluster: returns `none` on a failing pull, else (last record of the cluster,
-first record of the next cluster if any, remaining pulls) -/
-def restOfCluster (p start : Int) (last : DRec D) :
-    List (Option (DRec D)) → Option (DRec D × Option (DRec D) × List (Option (DRec D)))
-  | [] => some (last, none, [])
-  | none :: _ => none
-  | some r :: t => if periodStart p r.ts = start then restOfCluster p start r t else some (last, some r, t)
+/-- aligner_report_filter.go:48-86, the report twin -/
+def alignRowValue (dts : List DataType) (start : Int) (prev : Option (Row D)) (first : Row D) : Option (Row D) :=
+  match prev with
+  | none => some { ts := start, vals := first.vals }
+  | some p =>
+    if first.ts = start then some { ts := start, vals := first.vals }
+    else (timeWeightedAverageArr O dts start p.ts p.vals first.ts first.vals).map fun v => { ts := start, vals := v }
 
-/-- the next pull of the source fails -/
-def headFails {α : Type} : List (Option α) → Bool
-  | none :: _ => true
-  | _ => false
-
-def alignLoop (dt : DataType) (p : Int) : Nat → Option (DRec D) → DRec D → List (Option (DRec D)) → DStream D
-  | 0, _, _, _ => []
-  | fuel + 1, prev, first, rest =>
-    let start := periodStart p first.ts
-    -- `FindFirst` yields `first` and pulls one more record
-    if headFails rest then [none]
-    else
-      match alignValue O dt start prev first with
-      | none => [none]
-      | some out =>
-        match restOfCluster p start first rest with
-        | none => [none]
-        | some (_, none, _) => [some out]
-        | some (last, some nxt, rest') => some out :: alignLoop dt p fuel (some last) nxt rest'
-
-/-- `AlignerFilter.Filter` on an executed datasource result (the numeric check is done by the caller) -/
+/-- `datasource.AlignerFilter.Filter` without fill mode, on an executed result (numeric check done by the caller) -/
 def alignStream (dt : DataType) (p : Int) (s : DStream D) : DStream D :=
-  match s with
-  | [] => []
-  | none :: _ => [none]
-  | some first :: rest => alignLoop O dt p (s.length + 1) none first rest
+  alignStreamG (fun r : DRec D => r.ts) (alignValue O dt) p s
+
+/-- `report.AlignerFilter.Filter` without fill mode -/
+def alignRows (dts : List DataType) (p : Int) (s : RStream D) : RStream D :=
+  alignStreamG (fun r : Row D => r.ts) (alignRowValue O dts) p s
+
+/-- the fill wrapper aligner_filter.go:97-108 (interpolateFn = `timeWeightedAverage`, copyFn = identity) -/
+def fillStream (dt : DataType) (p : Int) (fill : Option FillMode) (s : DStream D) : DStream D :=
+  match fill with
+  | none => s
+  | some mode =>
+    gapFillStream (fun r : DRec D => r.ts) (fun r => r.val) (fun t v => { ts := t, val := v }) p mode
+      (timeWeightedAverage O dt) s
+
+/-- the fill wrapper aligner_report_filter.go:93-104 (copyFn = a fresh copy of the row: the same value) -/
+def fillRows (dts : List DataType) (p : Int) (fill : Option FillMode) (s : RStream D) : RStream D :=
+  match fill with
+  | none => s
+  | some mode =>
+    gapFillStream (fun r : Row D => r.ts) (fun r => r.vals) (fun t v => { ts := t, vals := v }) p mode
+      (timeWeightedAverageArr O dts) s
 
 end aligner
+
+/-! ## the stream filters: aligner (both packages), delta and rate (package `datasource`).
+They are `Filter`s like the row-wise ones above; in a query TREE they are kept apart (`RDs.xfiltered`,
+`DDs.xfiltered`) because the reference semantics of C11 (Model/QueryRef.lean) covers the row-wise filters only.
+`chainR`/`chainD` below give `NewFilteredDataSource(ds, f1, …, fn)` for a mixed filter list. -/
+
+/-- report/aligner_report_filter.go: `NewAlignerFilter(fixed p)` / `NewInterpolatingAlignerFilter(fixed p, mode)` -/
+inductive RXFilter
+  | align (period : Int) (fill : Option FillMode)
+  deriving Repr, Inhabited
+
+/-- datasource/{aligner_filter,delta_filter,rate_filter}.go -/
+inductive DXFilter (D : Type)
+  | align (period : Int) (fill : Option FillMode)
+  | delta (nonNegative : Bool) (maxCounter : D)
+  | rate (overrideUnit : String) (perSeconds : Int) (nonNegative : Bool) (maxCounter : D)
+  deriving Repr, Inhabited
+
+/-- `NewFixedAlignmentPeriod` panics on a non-positive duration (alignment_period.go:71-79): a constructor
+precondition of the query, not a planning error -/
+def RXFilter.periodOk : RXFilter → Prop
+  | .align p _ => 0 < p
+
+def DXFilter.periodOk {D : Type} : DXFilter D → Prop
+  | .align p _ => 0 < p
+  | _ => True
+
+section xfilters
+variable {D : Type} (O : Ops D)
+
+/-- the float64 operations of `Ops` as the `Dec` record of the C15 model (Model/TsBase1415.lean), to reuse
+`Delta.nonNegDelta` (non_negative_delta.go) -/
+def decOfOps : ShpanVerif.Model.TsB.Dec D :=
+  { zero := O.ofInt 0, add := O.add, sub := O.sub, mul := O.mul, div := O.div, lt := O.lt, ofInt := O.ofInt,
+    trunc := O.toInt }
+
+/-- `MapWhileFilteringWithErr(src, mapper)` with the `prevItem` memo of delta_filter.go / rate_filter.go:
+`step prev item` = `none` (mapper error / panic) or (record to emit if any, new `prevItem`) -/
+def memoStream (step : DRec D → DRec D → Option (Option (DRec D) × DRec D)) : Option (DRec D) → DStream D → DStream D
+  | _, [] => []
+  | prev, none :: t => none :: memoStream step prev t
+  | none, some x :: t => memoStream step (some x) t                      -- first item: stored, nothing emitted
+  | some pr, some x :: t =>
+    match step pr x with
+    | none => none :: memoStream step (some pr) t
+    | some (none, pr') => memoStream step (some pr') t
+    | some (some out, pr') => some out :: memoStream step (some pr') t
+
+/-- the mapper of delta_filter.go:48-91 (nonNegative) / :98-112 (plain); `sub` = `BinaryNumericOperatorSub` for the type -/
+def deltaStep (dt : DataType) (sub : Val D → Val D → Option (Val D)) (nn : Bool) (maxC : D) (pr x : DRec D) :
+    Option (Option (DRec D) × DRec D) :=
+  if nn then
+    match toFloat64 O dt x.val with                                      -- :55-58
+    | none => none
+    | some cv =>
+      match toFloat64 O dt pr.val with                                   -- :59-62
+      | none => none
+      | some pv =>
+        let de := ShpanVerif.Model.Delta.nonNegDelta (decOfOps O) maxC cv pv   -- :64
+        if !de.2 then some (none, pr)                                    -- :65-67 dropped point, prevItem stays
+        else if O.lt cv pv then                                          -- :70-80 reset: float round trip
+          (fromFloat64 O dt de.1).map fun c => (some { ts := x.ts, val := c }, x)
+        else (sub x.val pr.val).map fun d => (some { ts := x.ts, val := d }, x)   -- :83-88
+  else (sub x.val pr.val).map fun d => (some { ts := x.ts, val := d }, x)         -- :105-110
+
+/-- delta_filter.go:23-116 -/
+def deltaF (nn : Bool) (maxC : D) (res : DResult D) : Except PlanErr (DResult D) :=
+  if !res.1.dt.isNumeric then .error .deltaNonNumeric
+  else if !res.1.required then .error .deltaOptional
+  else match binFunc O .sub res.1.dt with
+    | none => .error .opUnsupported                                      -- unreachable for a numeric type
+    | some sub => .ok (res.1, memoStream (deltaStep O res.1.dt sub nn maxC) none res.2)
+
+/-- the mapper of rate_filter.go:73-104; `ps` = the effective perSeconds -/
+def rateStep (dt : DataType) (ps : Int) (nn : Bool) (maxC : D) (pr x : DRec D) : Option (Option (DRec D) × DRec D) :=
+  match toFloat64 O dt x.val with                                        -- :80-83
+  | none => none
+  | some cv =>
+    match toFloat64 O dt pr.val with                                     -- :84-87
+    | none => none
+    | some pv =>
+      let de := if nn then ShpanVerif.Model.Delta.nonNegDelta (decOfOps O) maxC cv pv else (O.sub cv pv, true)
+      if !de.2 then some (none, pr)                                      -- :89-92
+      else
+        let td := O.secs (x.ts - pr.ts)                                  -- :94
+        if O.eq td (O.ofInt 0) then none                                 -- :95-97
+        else some (some { ts := x.ts, val := .dec (O.mul (O.div de.1 td) (O.ofInt ps)) }, x)   -- :99-103
+
+/-- rate_filter.go:29-107: the result is a required decimal field with the override unit -/
+def rateF (unit : String) (perSeconds : Int) (nn : Bool) (maxC : D) (res : DResult D) : Except PlanErr (DResult D) :=
+  if !res.1.dt.isNumeric then .error .rateNonNumeric
+  else if !res.1.required then .error .rateOptional
+  else match newFieldMeta res.1.urn .decimal true unit res.1.custom with
+    | .error e => .error e
+    | .ok fm =>
+      let ps := if perSeconds ≤ 0 then 1 else perSeconds               -- :54-57
+      .ok (fm, memoStream (rateStep O res.1.dt ps nn maxC) none res.2)
+
+/-- aligner_filter.go:36-115 -/
+def alignDF (p : Int) (fill : Option FillMode) (res : DResult D) : Except PlanErr (DResult D) :=
+  if !res.1.dt.isNumeric then .error .alignNonNumeric
+  else .ok (res.1, fillStream O res.1.dt p fill (alignStream O res.1.dt p res.2))
+
+/-- aligner_report_filter.go:28-111: EVERY field must be numeric -/
+def alignRF (p : Int) (fill : Option FillMode) (res : RResult D) : Except PlanErr (RResult D) :=
+  if res.1.any (fun m => !m.dt.isNumeric) then .error .alignNonNumeric
+  else
+    let dts := res.1.map (·.dt)
+    .ok (res.1, fillRows O dts p fill (alignRows O dts p res.2))
+
+def applyRXF (f : RXFilter) (res : RResult D) : Except PlanErr (RResult D) :=
+  match f with
+  | .align p fill => alignRF O p fill res
+
+def applyDXF (f : DXFilter D) (res : DResult D) : Except PlanErr (DResult D) :=
+  match f with
+  | .align p fill => alignDF O p fill res
+  | .delta nn maxC => deltaF O nn maxC res
+  | .rate unit ps nn maxC => rateF O unit ps nn maxC res
+
+end xfilters
 
 /-! ## datasources of both packages -/
 
@@ -478,6 +734,8 @@ mutual
   inductive RDs (D : Type)
     | static (metas : List FieldMeta) (rows : List (Row D))
     | filtered (ds : RDs D) (fs : List (RFilter D))
+    /-- `report.NewFilteredDataSource(ds, f)` for a stream filter (aligner) -/
+    | xfiltered (ds : RDs D) (f : RXFilter)
     | join (jt : JoinType) (srcs : RDsL D)
     | fromDs (ds : DDs D)
   inductive RDsL (D : Type)
@@ -487,6 +745,8 @@ mutual
   inductive DDs (D : Type)
     | static (fm : FieldMeta) (rows : List (DRec D))
     | filtered (ds : DDs D) (fs : List (DFilter D))
+    /-- `datasource.NewFilteredDataSource(ds, f)` for a stream filter (aligner / delta / rate) -/
+    | xfiltered (ds : DDs D) (f : DXFilter D)
     | reduction (rt : RedType) (period : Int) (afm : AddFieldMeta) (fallback : Option (DVal D)) (srcs : DDsL D)
     | fromReport (r : RDs D) (urn : String)
   inductive DDsL (D : Type)
@@ -620,6 +880,7 @@ mutual
       else if hasDupUrn metas [] then .error .staticDup
       else .ok (metas, (rows.filter fun r => inRange from_ to r.ts).map some)
     | .filtered ds fs => execR fixD22 from_ to ds >>= applyRFs O fixD22 fs
+    | .xfiltered ds f => execR fixD22 from_ to ds >>= applyRXF O f
     | .join jt srcs =>
       -- join_datasource.go:35-135
       match execRL fixD22 from_ to srcs with
@@ -648,6 +909,7 @@ mutual
       -- static_datasource.go:14-36
       .ok (m, (rows.filter fun r => inRange from_ to r.ts).map some)
     | .filtered ds fs => execD fixD22 from_ to ds >>= applyDFs O fs
+    | .xfiltered ds f => execD fixD22 from_ to ds >>= applyDXF O f
     | .reduction rt period afm fb srcs =>
       -- reduction_datasource.go:56-200
       if period ≤ 0 then .error .redNoPeriod
@@ -690,5 +952,52 @@ mutual
 end
 
 end exec
+
+/-! ## `NewFilteredDataSource(ds, f1, …, fn)` with row-wise and stream filters mixed
+(report_filter.go:42-51 / datasource_filter.go:59-65: `Execute` of the source, then `ApplyFilters` one after the
+other).  `chainR`/`chainD` build the tree for such a list; `execR_chainR`/`execD_chainD` (Proofs/QueryXFilters.lean)
+show that its `Execute` is exactly that sequential application. -/
+
+inductive RStage (D : Type)
+  | plain (f : RFilter D)
+  | x (f : RXFilter)
+
+inductive DStage (D : Type)
+  | plain (f : DFilter D)
+  | x (f : DXFilter D)
+
+section chain
+variable {D : Type} (O : Ops D)
+
+def chainR : RDs D → List (RStage D) → RDs D
+  | ds, [] => ds
+  | ds, .plain f :: r => chainR (.filtered ds [f]) r
+  | ds, .x f :: r => chainR (.xfiltered ds f) r
+
+def chainD : DDs D → List (DStage D) → DDs D
+  | ds, [] => ds
+  | ds, .plain f :: r => chainD (.filtered ds [f]) r
+  | ds, .x f :: r => chainD (.xfiltered ds f) r
+
+def applyRStage (fixD22 : Bool) (st : RStage D) (res : RResult D) : Except PlanErr (RResult D) :=
+  match st with
+  | .plain f => applyRF O fixD22 f res
+  | .x f => applyRXF O f res
+
+def applyDStage (st : DStage D) (res : DResult D) : Except PlanErr (DResult D) :=
+  match st with
+  | .plain f => applyDF O f res
+  | .x f => applyDXF O f res
+
+/-- `ApplyFilters` over a mixed list -/
+def applyRStages (fixD22 : Bool) : List (RStage D) → RResult D → Except PlanErr (RResult D)
+  | [], res => .ok res
+  | st :: r, res => applyRStage O fixD22 st res >>= applyRStages fixD22 r
+
+def applyDStages : List (DStage D) → DResult D → Except PlanErr (DResult D)
+  | [], res => .ok res
+  | st :: r, res => applyDStage O st res >>= applyDStages r
+
+end chain
 
 end ShpanVerif.Model.Query
